@@ -124,7 +124,7 @@ pub struct BlockRec {
     pub hash: String,
     pub ts: u64,
     pub calls: Vec<Call>,
-    /// receipts returned to the indexer for this block, in tx index order
+    /// receipts returned to the indexer for this block, in tx index order: {insc, own, receipt}
     pub receipts: Vec<Value>,
 }
 
@@ -562,7 +562,10 @@ impl World {
             }
         }
         if let Some(o) = self.open.as_mut() {
-            o.receipts.push(r.clone());
+            // `insc` is the id the indexer supplied with the call; for drained pending transactions
+            // (2nd.. receipt of one brc20_transact) the id is the parked transaction's own
+            let own = !o.receipts.iter().any(|x| x["insc"].as_str() == Some(insc) && x["own"].as_bool() == Some(true));
+            o.receipts.push(json!({"insc": insc, "own": own, "receipt": r}));
         }
     }
 
@@ -821,7 +824,7 @@ impl World {
                                 if let Some(h) = v.get("transactionHash").and_then(|x| x.as_str()) {
                                     self.uni.tx_hashes.insert(h.to_string());
                                 }
-                                vec![v.clone()]
+                                vec![json!({"insc": "BRC20_CONTROLLER_INIT", "own": true, "receipt": v})]
                             }
                             _ => vec![],
                         };
@@ -1008,7 +1011,8 @@ impl World {
             Some(o) => (o.ts, o.hash_param.clone(), o.txs),
             None => (self.last_ts + 1, ZERO_HASH.to_string(), 0),
         };
-        let mid = self.open.is_some();
+        // the engine has a block under construction only once a transaction was accepted into it
+        let mid = self.open.as_ref().map_or(false, |o| o.txs > 0);
         let tag = format!("{:?}", b);
         let tag = tag.split('(').next().unwrap_or("bad").to_string();
         self.stats.bump(&format!("bad_{}{}", tag, if mid { "_mid" } else { "_boundary" }));
